@@ -31,6 +31,7 @@ import struct
 import types
 
 from xdis.codetype import Code2, Code3
+from xdis.cross_types import UnicodeForPython3
 from xdis.version_info import PYTHON3, PYTHON_VERSION_TRIPLE, version_tuple_to_str
 
 try:
@@ -96,8 +97,28 @@ class _Marshaller:
     def __init__(self, writefunc, python_version=None):
         self._write = writefunc
         self.python_version = python_version
+        # Set while the constants of a Python 2 code object are written.
+        self.in_code2 = False
 
     def dump(self, x):
+        if self.in_code2 and PYTHON3:
+            # A Python 2 constant held by a Python 3 host: the unmarshaller
+            # keeps int/long and str/unicode apart (LongTypeForPython3,
+            # UnicodeForPython3); write each as the kind it was.
+            tp = type(x)
+            if tp is int:
+                return self.dump_int(x)
+            if tp is str:
+                return self.dump_string(x.encode("utf-8"))
+            if tp is UnicodeForPython3:
+                value = x.value
+                if not isinstance(value, bytes):
+                    value = value.encode("utf-8")
+                self._write(TYPE_UNICODE)
+                self.w_long(len(value))
+                self._write(value)
+                return
+
         if (
             isinstance(x, types.CodeType)
             and PYTHON_VERSION_TRIPLE[:2] != self.python_version[:2]
@@ -323,22 +344,20 @@ class _Marshaller:
         # If running in a Python3 interpreter, some constants will get
         # converted from string to unicode. For now, let's see if
         # that's okay.
-        self.dump(x.co_consts)
+        saved, self.in_code2 = self.in_code2, True
+        try:
+            self.dump(x.co_consts)
+        finally:
+            self.in_code2 = saved
 
-        # The tuple "names" in Python2 must have string entries
-        self._write(TYPE_TUPLE)
-        self.w_long(len(x.co_names))
-        for name in x.co_names:
-            self.dump_string(name)
+        # The tuples "names", "varnames", "freevars" and "cellvars" in
+        # Python2 must have string entries
+        for names in (x.co_names, x.co_varnames, x.co_freevars, x.co_cellvars):
+            self._write(TYPE_TUPLE)
+            self.w_long(len(names))
+            for name in names:
+                self.dump_string(name)
 
-        # The tuple "varnames" in Python2 also must have string entries
-        self._write(TYPE_TUPLE)
-        self.w_long(len(x.co_varnames))
-        for name in x.co_varnames:
-            self.dump_string(name)
-
-        self.dump(x.co_freevars)
-        self.dump(x.co_cellvars)
         self.dump_string(x.co_filename)
         self.dump_string(x.co_name)
         self.w_long(x.co_firstlineno)
